@@ -83,7 +83,14 @@ func runCLI(dir string, args []string, stdin string, env []string) cliResult {
 	cmd.Env = append([]string{"PATH=" + os.Getenv("PATH"), "HOME=" + dir}, env...)
 	var so, se bytes.Buffer
 	cmd.Stdout, cmd.Stderr = &so, &se
-	if stdin == "\x00DIR" {
+	if stdin == "\x00PIPE" {
+		// a pipe that nobody writes to and nobody closes (a service manager, ssh without a terminal)
+		if pr, pw, err := os.Pipe(); err == nil {
+			defer pr.Close()
+			defer pw.Close()
+			cmd.Stdin = pr
+		}
+	} else if stdin == "\x00DIR" {
 		if d, err := os.Open(dir); err == nil {
 			defer d.Close()
 			cmd.Stdin = d
@@ -128,6 +135,7 @@ type cliCase struct {
 	replyMs          []rscp.Message // the one reply of an unsplit healthy exchange, for the Go-side output oracle of C13
 	mustSucceed      bool           // valid options, valid request, a device that answers everything: status 0 and a document
 	stdinDir         bool           // standard input is a directory (reading it fails)
+	stdinPipe        bool           // standard input is a pipe that stays open and silent
 	checkSplitOutput bool           // replyMs is the concatenation of the replies of a split run
 	anyOutcome       bool           // the model's prediction is not compared (the outcome depends on the environment); the contract is still judged
 }
@@ -208,6 +216,9 @@ func cliExec(rundir string, n int, c *cliCase) (impl, prop string) {
 	stdin := c.stdin
 	if c.stdinDir {
 		stdin = "\x00DIR"
+	}
+	if c.stdinPipe {
+		stdin = "\x00PIPE"
 	}
 	r := runCLI(dir, args, stdin, env)
 	var frames []string
@@ -542,6 +553,16 @@ func init() {
 			c.anyOutcome = true
 			add(c)
 		}
+		for _, a := range [][]string{{"-version"}, {"-version", "-debug", "5"}} {
+			c := base("version asked with everything configured and standard input an idle pipe")
+			c.flags, c.needsDev = "version", false
+			c.args = append(append([]string{}, c.args...), a...)
+			for i, x := range c.args {
+				c.args[i] = strings.ReplaceAll(x, "{PORT}", "5033")
+			}
+			c.stdinPipe, c.anyOutcome = true, true
+			add(c)
+		}
 		{
 			c := base("standard input is a directory")
 			ms := mkReq(c, 1, true)
@@ -645,6 +666,19 @@ func init() {
 				c.users = []replySpec{frameReply(c.replyMs)}
 				c.args = append(c.args, "-output", f, c.reqText)
 				_ = k
+				add(c)
+			}
+		}
+		// byte arrays of length 0, 1 and 2 through the binary
+		for _, bs := range [][]byte{{}, {0}, {255, 1}} {
+			for _, f := range []string{"json", "jsonsimple", "jsonmerged"} {
+				c := base(fmt.Sprintf("byte array of %d bytes", len(bs)))
+				c.format, c.mustSucceed = f, true
+				mkReq(c, 1, true)
+				m := rscp.Message{Tag: rscp.WB_EXTERN_DATA, DataType: rscp.ByteArray, Value: bs}
+				c.replyMs = []rscp.Message{m, {Tag: rscp.BAT_DATA, DataType: rscp.Container, Value: []rscp.Message{m}}}
+				c.users = []replySpec{frameReply(c.replyMs)}
+				c.args = append(c.args, "-output", f, c.reqText)
 				add(c)
 			}
 		}
